@@ -62,10 +62,10 @@ CLAIMS["C04"] = dict(
 )
 CLAIMS["C07"] = dict(
     category="model_checking",
-    technique="TLA+ spec Admission.tla: TLC over the full 2 064 384-row admission table (declarative statement vs staged transcription, necessity of every condition) + execution of TLC-emitted rows on the real parseRegMessage/ingestRegistration",
+    technique="TLA+ spec Admission.tla: TLC over the full 5 013 504-row admission table (incl. registrar address overrides) (declarative statement vs staged transcription, necessity of every condition) + execution of TLC-emitted rows on the real parseRegMessage/ingestRegistration",
     text="The admission rule is written twice in Admission.tla (the property's statement and a staged transcription of the code) and TLC checks "
          "on every row that they agree, that probes are sent only when required, sharing happens at most once / only after the probe / marked "
-         "pre-scanned, and that every condition is necessary. Every admitted row plus all single-condition neighbours (17 920) and 20 000 "
+         "pre-scanned, and that every condition is necessary. Every admitted row plus all single-condition neighbours (39 200) and 20 000 "
          "(quick) / 400 000 (thorough) seeded random rows are executed on the real ingest with real C2SWrapper bytes; visible / tracked / "
          "announced / probes / shares must equal the specification's outcome.",
     note="Library version = current, transport min; registrar overrides / prefix parameters are C12 / C02. 'Complete' read as in DESIGN section 8. "
